@@ -321,14 +321,14 @@ def generate(rng, thorough):
         for c in INPLACE:
             if a != c:
                 progs.append(gen_advance(rng, [a, c], cmd_each=True))
-    for _ in range(40 if thorough else 6):
+    for _ in range(40 if thorough else 4):
         progs.append(gen_advance(rng, [rng.choice(INPLACE) for _ in range(rng.randrange(2, 5))], cmd_each=rng.random() < 0.6))
     for k in ["Led", "RGB", "Motor", "Buzzer"]:      # (an Ultrasonic / Button name bound twice: listed findings of the literal-pin model)
         for form in ("offset", "other", "literal"):
             progs.append(gen_rebind(rng, k, form))
     for k in QK:
         progs.append(gen_arith(rng, [k, k]))
-    for _ in range(40 if thorough else 6):
+    for _ in range(40 if thorough else 4):
         progs.append(gen_arith(rng, [rng.choice(list(QK)) for _ in range(rng.randrange(2, 5))]))
     for k in ["Led", "RGB", "Motor", "Buzzer"]:
         progs.append(gen_defect(rng, "same_name", k))
@@ -338,7 +338,7 @@ def generate(rng, thorough):
         progs.append(gen_defect(rng, "hoisted", k))
     for k in LOOPTOP:
         progs.append(gen_defect(rng, "looptop", k))
-    for _ in range(300 if thorough else 24):
+    for _ in range(200 if thorough else 18):
         progs.append(gen_random(rng))
     return progs
 
